@@ -99,12 +99,22 @@ def run(ctx):
                 if k_ != "precise":
                     continue
                 rdh = ReachingDefs(h)
+                vh = view(ctx, h)
                 rets = [r for r in walk_no_nested(h.node) if isinstance(r, ast.Return) and r.value is not None]
                 good = bool(rets)
+
+                def cs_guard(node_ast):
+                    # (cond, label) with label = the edge on which the section IS case-sensitive, or None
+                    g_ = vh.guard_for(vh.node(node_ast), lambda t: "case_sensitive" in norm(t))
+                    if g_ is None:
+                        return None
+                    return (g_[1] is True) != norm(g_[0].ast).startswith("not ")
                 for r in rets:
                     v_ = r.value
                     if normalisation(rdh, v_, r) == {"casefold"}:
                         continue
+                    if cs_guard(r) is True:
+                        continue    # an unfolded key is returned only for a case-sensitive section
                     if isinstance(v_, ast.IfExp) and "case_sensitive" in norm(v_.test):
                         neg = norm(v_.test).startswith("not ")
                         folded_side = v_.body if neg else v_.orelse
@@ -113,10 +123,8 @@ def run(ctx):
                     if isinstance(v_, ast.Name):
                         defs_ = rdh.at(r, v_.id) or []
                         folds_ = [d for d in defs_ if d.kind == "assign" and normalisation(rdh, d.value, d.node) == {"casefold"}]
-                        vh = view(ctx, h)
                         if folds_ and all(d.kind == "param" for d in defs_ if d not in folds_) and all(
-                                (lambda g_: g_ is not None and (g_[1] is True) == norm(g_[0].ast).startswith("not "))(
-                                    vh.guard_for(vh.node(d.node), lambda t: "case_sensitive" in norm(t))) for d in folds_):
+                                cs_guard(d.node) is False for d in folds_):
                             continue
                     good = False
                 ok = good
